@@ -1232,7 +1232,7 @@ def _parseparam(s: str) -> Generator[str]:
         start = end
 
 
-def _parse_header(line: str) -> tuple[str, dict[str, str]]:
+def _parse_header(line: str) -> tuple[str, dict[str, typing.Any]]:
     r"""Parse a Content-type like header.
 
     Return the main content-type and a dictionary of options.
@@ -1245,20 +1245,28 @@ def _parse_header(line: str) -> tuple[str, dict[str, str]]:
     True
     >>> d['foo']
     'b\\a"r'
+
+    Parameters without a value (as used in websocket extension negotiation)
+    are returned with the value None.
+
+    >>> _parse_header("permessage-deflate; client_no_context_takeover")
+    ('permessage-deflate', {'client_no_context_takeover': None})
     """
     parts = _parseparam(";" + line)
     key = next(parts)
     # decode_params treats first argument special, but we already stripped key
     params = [("Dummy", "value")]
+    pdict: dict[str, typing.Any] = {}
     for p in parts:
         i = p.find("=")
         if i >= 0:
             name = p[:i].strip().lower()
             value = p[i + 1 :].strip()
             params.append((name, native_str(value)))
+        elif p:
+            pdict[p.lower()] = None
     decoded_params = email.utils.decode_params(params)
     decoded_params.pop(0)  # get rid of the dummy again
-    pdict = {}
     for name, decoded_value in decoded_params:
         value = email.utils.collapse_rfc2231_value(decoded_value)
         if len(value) >= 2 and value[0] == '"' and value[-1] == '"':
